@@ -3,6 +3,8 @@
 HOOK_COMMITS = ["8eb6fb7e966ea020d53ffa53eb464d5e25f195d3"]
 
 ENGINES = [
+    dict(name="routing", path="harness/cmd/h/eng_routing.go", serves_properties=["C10"],
+         kind_free_text="differential: utils.UuidMod and Dataset routing (single-item and batch path) vs the Lean model on edge/random ids x moduli 1..1024 and powers of two"),
     dict(name="placement", path="harness/cmd/h/eng_placement.go", serves_properties=["C16"],
          kind_free_text="exhaustive sweep N<=16,R<=8,P in {1,2,7,64} + multi-step membership histories on the real Allocator/Conn; validity predicate evaluated by the Lean driver; aliasing and independence oracle"),
     dict(name="partition", path="harness/cmd/h/eng_partition.go", serves_properties=["C02", "C04"],
@@ -30,6 +32,11 @@ META = {
         technique="Lean 4 proof (determinism corollaries of the refinement: outcomes and contents are functions of the abstract map; snapshot = reload preserves the refinement) + multi-replica differential run with restore at every cut",
         text="replicas_agree / snapshot_cut / restart_replay (lean/Anndb/Props/C04.lean): any two replicas related to the same map — differing in queue implementation, metric, parameters, fallback choice and graph — report the same outcome for every entry and hold the same contents and counters; restoring a snapshot taken at any cut and applying the suffix equals applying the whole log. Engine partition feeds byte-identical marshalled entries to real stand-alone partitions, restoring the real snapshot at every cut into fresh and used replicas, and compares outcomes, contents and counters pairwise and against the model.",
         note="Trusted: as C02; Hnsw.Save/Load's byte format is C08's subject — here its effect on the state is Index.reload, and the real Save/Load is exercised at every cut.",
+    ),
+    "C10": dict(
+        technique="Lean 4 proof over UInt64 (totality, no-overflow spec) with the routing function regenerated from source by a translator and tied by rfl + call-site facts + differential run on UuidMod and on both Dataset routing paths",
+        text="uuidMod_lt / uuidMod_spec (lean/Anndb/Props/C10.lean): for every 128-bit id and every partition count n in 1..2^63 the owner is < n and equals (lo + hi) mod n without overflow; code_is_model ties the expression translated from utils/uuid.go on this run to the model by rfl; single_routing_function (regenerated call-site facts) says UuidMod is called only from getPartitionForId and that single insert/update/remove and the batch grouping all go through it; group_by_owner / group_disjoint / group_covers: batch grouping partitions the batch by owner. Engine routing compares utils.UuidMod and real Dataset objects' single-item and batch routing with the model.",
+        note="Trusted: Lean kernel; goextract; binary.LittleEndian. The cluster-level consequence (an item written through any node lands on the owner's replicas only) additionally needs the proxy paths to forward the item id unchanged; that is exercised by the cluster engine (see C11).",
     ),
     "C16": dict(
         technique="Lean 4 proof over an oracle-permutation model of the shuffle (count, distinctness, membership, independence; aliasing variant refuted) + regenerated shape facts + exhaustive sweep of the real allocator",
